@@ -1,9 +1,9 @@
 package main
 
 import (
-	"go/token"
-	"go/constant"
 	"fmt"
+	"go/constant"
+	"go/token"
 	"go/types"
 	"sort"
 	"strings"
@@ -45,7 +45,8 @@ func checkC01(c *Ctx) {
 	ruleR15(c, dv, "R1.5")
 	ruleR16(c, dv, modes, "R1.6")
 	ruleDispatch(c, dv, "R1.8", true, true)
-	ruleCounterInit(c, dv, "R1.7") // one zeroed holder count per (channel, note): a shared table makes the last-holder test wrong and the Note Off is withheld
+	c.importRules(transportRules, []string{"R15.1", "R15.2", "R15.5"}, "R1.9") // a Note Off swallowed or altered on the way to the port leaves the note sounding
+	ruleCounterInit(c, dv, "R1.7")                                             // one zeroed holder count per (channel, note): a shared table makes the last-holder test wrong and the Note Off is withheld
 	c.MinCount("R1.1", 8)
 	c.MinCount("R1.2", 8)
 	c.MinCount("R1.3", 8)
@@ -74,7 +75,10 @@ func sameTerm(a, b *Term) bool { return a != nil && b != nil && a.String() == b.
 
 // ruleR11: record-what-you-emit in NoteOn and AnalogNoteOn.
 func ruleR11(c *Ctx, dv *dev, modes []string, rule string) {
-	for _, spec := range []struct{ fn, tracker string; counted bool }{{"NoteOn", "noteTracker", true}, {"AnalogNoteOn", "analogNoteTracker", false}} {
+	for _, spec := range []struct {
+		fn, tracker string
+		counted     bool
+	}{{"NoteOn", "noteTracker", true}, {"AnalogNoteOn", "analogNoteTracker", false}} {
 		m := dv.noteModel(spec.fn, spec.tracker)
 		if !c.Require(m.err == nil, rule, "device."+spec.fn, fmt.Sprint(m.err)) {
 			continue
@@ -238,7 +242,10 @@ func isIncDec(e Effect, delta int64) bool {
 
 // ruleR12: release-what-was-recorded in NoteOff and AnalogNoteOff.
 func ruleR12(c *Ctx, dv *dev, modes []string, rule string) {
-	for _, spec := range []struct{ fn, tracker string; counted bool }{{"NoteOff", "noteTracker", true}, {"AnalogNoteOff", "analogNoteTracker", false}} {
+	for _, spec := range []struct {
+		fn, tracker string
+		counted     bool
+	}{{"NoteOff", "noteTracker", true}, {"AnalogNoteOff", "analogNoteTracker", false}} {
 		m := dv.noteModel(spec.fn, spec.tracker)
 		if !c.Require(m.err == nil, rule, "device."+spec.fn, fmt.Sprint(m.err)) {
 			continue
@@ -523,7 +530,15 @@ func absPaths(c *Ctx, dv *dev) ([]*Path, error) {
 		only[f] = true
 	}
 	dv.withHelpers(only) // value-only helpers (e.g. an extracted scaling function) and newly extracted helpers are seen through
-	paths, err := Enumerate(fn, SymConfig{Prog: c.P, MaxDepth: 3, Collapse: true, CollapsePure: true, OnlyInline: only})
+	// inside the controller case the choice of the transfer function (signed/unsigned x uni/bidirectional) must stay
+	// visible as path conditions even when it is written as value-only branches
+	keep := map[*ssa.BasicBlock]bool{}
+	if ccType, ok := c.P.constString(pkgConfig, "AnalogCC"); ok {
+		for b := range caseRegion(fn, dv, ccType) {
+			keep[b] = true
+		}
+	}
+	paths, err := Enumerate(fn, SymConfig{Prog: c.P, MaxDepth: 3, Collapse: true, CollapsePure: true, OnlyInline: only, KeepDiamonds: keep})
 	c.Paths += len(paths)
 	return paths, err
 }
@@ -735,7 +750,10 @@ func ruleR15(c *Ctx, dv *dev, rule string) {
 	}
 	c.Paths += len(paths)
 	pos := c.P.Pos(fn.Pos())
-	type agg struct{ n int; bad string }
+	type agg struct {
+		n   int
+		bad string
+	}
 	res := map[string]*agg{}
 	note := func(k, bad string) {
 		a := res[k]
